@@ -190,15 +190,23 @@ func checkC02(p *core.Program, r *core.Report) {
 		}
 		return true
 	}
+	readDepth := map[*ssa.Function]int{}
 	var addRead func(fn *ssa.Function, root string, depth int)
 	addRead = func(fn *ssa.Function, root string, depth int) {
+		if fn != nil && fn.Parent() == nil && isReadName(fn.Name()) {
+			depth = 0 // a read function is a root of the read side however it was reached
+		}
 		if fn == nil || fn.Blocks == nil || depth > 2 {
 			return
 		}
-		if _, ok := readFns[fn]; ok {
+		// reached again by a shorter chain: explore again (the result must not depend on the order of visits)
+		if d, ok := readDepth[fn]; ok && d <= depth {
 			return
 		}
-		readFns[fn] = root
+		readDepth[fn] = depth
+		if _, ok := readFns[fn]; !ok {
+			readFns[fn] = root
+		}
 		for _, an := range fn.AnonFuncs {
 			addRead(an, root, depth)
 		}
